@@ -418,6 +418,30 @@ func handle(verb string, a []string) string {
 			eng.SetHook(nil)
 		}
 		return "ok"
+	case "testclient": // testclient : the in-process test client API - a parent switched to RESP3, then an additional client; reports the Go types of the replies both get for HGETALL
+		parent := redisemu.NewRedisTestClientResp2(nil)
+		defer parent.Close()
+		parent.ProcessCommand("HSET", "h", "f", "v")
+		before := parent.AdditionalClient()
+		parent.ProcessCommand("HELLO", "3")
+		after := parent.AdditionalClient()
+		shape := func(c redisemu.RedisTestClient) string {
+			v := fmt.Sprintf("%#v", c.ProcessCommand("HGETALL", "h"))
+			switch {
+			case strings.Contains(v, "respMap"), strings.Contains(v, "respPairs"):
+				return "map"
+			case strings.Contains(v, "respArray"):
+				return "array"
+			}
+			if len(v) > 60 {
+				v = v[:60]
+			}
+			return "other:" + strings.ReplaceAll(v, " ", "_")
+		}
+		res := fmt.Sprintf("ok parent=%s made-before=%s made-after=%s", shape(parent), shape(before), shape(after))
+		after.ProcessCommand("HELLO", "3")
+		res += " made-after-own-hello3=" + shape(after)
+		return res
 	case "replyhook": // replyhook <name> : a dispatch hook (public SetHook API) that answers ECHO verif:<kind> with a Go value of that kind
 		instMu.Lock()
 		eng := insts[a[0]]
